@@ -26,7 +26,7 @@ Extraction "model.ml"
   make_relative_path resolve_str components
   adjust_mappings spec_adjust has_empty_stretch dst_key src_key
   sm_new set_source_root set_source set_source_contents get_source get_name get_source_contents tok_source tok_name
-  builder_new add_source add_name add add_raw b_set_source_contents b_add_to_ignore_list b_set_source_root into_sourcemap
+  builder_new add_source add_name add add_raw b_set_source_contents b_add_to_ignore_list b_set_source_root b_set_file b_set_debug_id into_sourcemap
   rewrite h_rewrite decode_function_map get_scope_for_token h_get_original_function_name flatten dm_lookup
   name_res name_res_spec locate b64_encode b64_decode
   parse is_ram_bundle startup_code get_module
